@@ -440,7 +440,10 @@ def g_http3(r):
 
 
 def g_wbxml(r):
-    b = bytes([r.choice([1, 2, 3]), r.choice([1, 0x6A]), r.choice([0x6A, 3, 0]), r.choice([0, 0, 4])])
+    if r.random() < 0.6:
+        b = bytes([3, 1, 0x6A, 0])  # WBXML 1.3, public id 1, UTF-8, empty string table (ActiveSync)
+    else:
+        b = bytes([r.choice([1, 2, 3]), r.choice([1, 0x6A]), r.choice([0x6A, 3, 0]), r.choice([0, 0, 4])])
     for _ in range(r.randint(0, 12)):
         x = r.random()
         if x < 0.3:
@@ -455,6 +458,15 @@ def g_wbxml(r):
             b += b"\x01"
         else:
             b += rb(r, 2)
+    x = r.random()
+    if x < 0.25:
+        if r.random() < 0.5:
+            b = bytes([3, 1, 0x6A, 0, 0x45])
+        b += b"\x03" + s(r, 0.3).encode().replace(b"\x00", b"")  # inline string cut before its terminating NUL (truncated body)
+    elif x < 0.35:
+        b += b"\xc3\x20" + rb(r, 3)  # opaque data shorter than its declared length
+    elif x < 0.45:
+        b += b"\x00"  # SWITCH_PAGE without page
     return b, r.choice(["application/vnd.ms-sync.wbxml", "application/vnd.wap.wbxml"]), "wbxml", "wbxml"
 
 
